@@ -30,6 +30,14 @@ func NewRequiredKeys() *RequiredKeys {
 	}
 }
 
+// Copy returns a list with the same keys, which grows on its own.
+func (c RequiredKeys) Copy() *RequiredKeys {
+	return &RequiredKeys{
+		keys:      append(make([]string, 0, len(c.keys)+10), c.keys...),
+		shortcuts: append(make([]bool, 0, len(c.shortcuts)+10), c.shortcuts...),
+	}
+}
+
 func (RequiredKeys) IsJsonTypeCompatible(t json.Type) bool {
 	return t == json.TypeObject
 }
